@@ -74,10 +74,12 @@ def gen_cases(tier, seed):
     transports = ['pickle'] if tier == 'quick' else ['pickle', 'mem', 'pkfile', 'yaml']
     for name, prog in sorted(_progs(tier, seed).items()):
         nb = len(prog['steps']) + programs.count_waits(prog)
-        for inputs in (None, {}, {'k': 5}):
+        for inputs in (None, {}, {'k': 5}, {'k': 5, 'todo': [1], 'cfg': {'flags': []}}):
             if inputs is not None and not any(fx[1][0] == 'inp' for st in prog['steps'] for fx in st.get('fx', ())) and name != 'long':
                 continue
-            for ctxprog in (False, True):
+            if inputs and 'todo' in inputs and name not in ('long', 'reads_inputs'):
+                continue  # (mutable input values that the context-keeping program changes in place at every step)
+            for ctxprog in ((True,) if inputs and 'todo' in inputs else (False, True)):
                 if ctxprog and name not in ('long', 'wait2', 'reads_inputs', 'mutating') and not name.startswith('rnd1'):
                     continue
                 sets = [list(c) for k in range(1, M + 1) for c in itertools.combinations(range(nb), k)] + [list(range(nb))]
